@@ -35,7 +35,7 @@ def scenarios(tier):
   three = dict(nposters=3, posts=(1, 1, 1), capacity=4)
   if tier == "quick":
     return [(two, 22), (hp, 22)]
-  return [(two, 32), (hp, 34), (pend, 30), (three, 26)]
+  return [(two, 26), (hp, 26), (pend, 24), (three, 20)]      # sized so that every query answers within the time limit (measured)
 
 
 def bounds(tier):
